@@ -50,6 +50,8 @@ class CallMixin:
         if isinstance(f, ast.Name) and not self.shadowed(f.id, st):
             return self.builtin(f.id, node, st)
         if isinstance(f, ast.Attribute):
+            if self.is_noeffect_call(f, st):
+                return None
             if isinstance(f.value, ast.Name) and self.is_table_name(f.value.id, st):
                 return self.table_method(f.value.id, f.attr, node, st)
             base = self.ev(f.value, st)
@@ -99,6 +101,12 @@ class CallMixin:
                 return abs(args[0])
             if name == 'bool' and len(args) == 1 and self.py_truth(args[0]) is not None:
                 return self.py_truth(args[0])
+        if name == 'sum' and 1 <= len(args) <= 2 and not kwargs and isinstance(args[0], list):
+            acc = args[1] if len(args) == 2 else 0
+            for x in args[0]:
+                fake = ast.copy_location(ast.BinOp(left=node, op=ast.Add(), right=node), node)
+                acc = self.binop(fake, acc, x, st)
+            return acc
         if name in ('tuple', 'list') and len(args) <= 1 and not kwargs:
             if not args:
                 return []
@@ -182,6 +190,18 @@ class CallMixin:
     def is_table_name(self, name, st):
         return name not in st.env and name in self.facts.tables and self.model.bind_count.get(name, 0) >= 1
 
+    def is_noeffect_call(self, f, st):
+        """log.debug(...) / logging.info(...): no effect on the value computed"""
+        from .bitstate import LOG_METHODS
+        if not (isinstance(f, ast.Attribute) and f.attr in LOG_METHODS and isinstance(f.value, ast.Name)):
+            return False
+        name = f.value.id
+        if name in st.env:
+            return False
+        if name == 'logging' and self.model.bind_count.get(name, 0) == 1 and name not in self.facts.assign_nodes:
+            return True
+        return self.model.is_logger(name)
+
     def table(self, tname):
         mode = self.model.table_mode(tname)
         if mode == 'unknown' or tname in self.model.global_decl:
@@ -194,6 +214,8 @@ class CallMixin:
     def reg_source(self, tname, key, st):
         """operand source of a table lookup with an open spelling"""
         table, mode = self.table(tname)
+        if not self.model.stable(tname):
+            raise Unsupported('table {} is bound more than once at module level'.format(tname))
         vals = sorted(set(table.values()), key=repr)
         if not vals or not all(isinstance(x, int) and not isinstance(x, bool) for x in vals):
             raise Unsupported('values of table {} are not integers'.format(tname))
